@@ -321,7 +321,14 @@ async fn aread_inner(kind: Kind, variant: u8, src: SimAsyncRead, workers: usize,
         }
         Kind::Gff => {
             let mut r = gff::r#async::io::Reader::new(BufReader::new(src));
-            match variant % 2 {
+            if variant % 3 == 2 {
+                let mut s = r.line_bufs();
+                while let Some(line) = s.try_next().await? {
+                    items.push(format!("B|{line:?}"));
+                }
+                return Ok(());
+            }
+            match variant % 3 {
                 0 => {
                     let mut s = r.lines();
                     while let Some(line) = s.try_next().await? {
